@@ -241,6 +241,11 @@ func c19Uni(s string) string {
 	return strings.Join(parts, ";")
 }
 
+func c19PairRaw(a, b string) string {
+	return Protect(func() string { return Itoa(dns.CompareDomainName(a, b)) }) + ";" +
+		Protect(func() string { return Btoa(dns.IsSubDomain(a, b)) })
+}
+
 func c19Pair(a, b string) string {
 	var parts []string
 	parts = append(parts, Protect(func() string { return Itoa(dns.CompareDomainName(a, b)) }))
@@ -432,6 +437,41 @@ func runC19(r *Rng, tier string, n int) {
 		for _, b := range strs {
 			Emit("pair", []string{Hs(a), Hs(b)}, c19Pair(a, b))
 		}
+	}
+	// (6) letter case means A-Z only: every octet against its 0x20-flipped twin
+	for b := 0; b < 256; b++ {
+		l1 := [][]byte{{'x', byte(b), 'y'}, []byte("nl")}
+		l2 := [][]byte{{'x', byte(b) ^ 0x20, 'y'}, []byte("nl")}
+		s1, s2 := c19Oracle(l1), c19Oracle(l2)
+		if s1 != "" && s2 != "" {
+			c19PairOracle(l1, l2, s1, s2)
+			if b%4 == 0 || b >= 0x40 && b < 0x80 {
+				Emit("pair", []string{Hs(s1), Hs(s2)}, c19Pair(s1, s2))
+			}
+		}
+	}
+	// (5) ASCII-only case folding: names with raw octets >= 0x80 (not the library's own
+	// presentation form, so no direct oracle; model fidelity of CompareDomainName /
+	// IsSubDomain, which fold A-Z only, octet by octet)
+	rawAlpha := []string{"a", "A", "k", "K", "s", "S", ".", "\xc3\x89", "\xc3\xa9", "\xff", "\xfe", "\xe2\x84\xaa", "\xc5\xbf", "\x80"}
+	for i := 0; i < 160; i++ {
+		mk := func() string {
+			var sb strings.Builder
+			for j := 0; j < 1+r.Intn(4); j++ {
+				sb.WriteString(rawAlpha[r.Intn(len(rawAlpha))])
+			}
+			s := strings.ReplaceAll(sb.String(), "..", ".")
+			s = strings.Trim(s, ".")
+			if s == "" {
+				s = "x"
+			}
+			return s + ".nl."
+		}
+		a, b := mk(), mk()
+		if i%4 == 0 { // same label, one octet differs by what Unicode folding would equate
+			b = strings.NewReplacer("K", "\xe2\x84\xaa", "k", "\xe2\x84\xaa", "s", "\xc5\xbf", "\xff", "\xfe", "\xc3\x89", "\xc3\xa9").Replace(a)
+		}
+		Emit("pairraw", []string{Hs(a), Hs(b)}, c19PairRaw(a, b))
 	}
 	Stat(map[string]int{"names_checked": c19checked, "pairs_checked": c19pairs, "enumerated_label_lists": cnt, "enumerated_strings": sc, "max_octets": maxOct})
 }
